@@ -633,7 +633,9 @@ func (p *InlineParser) parseBackslash(state *inlineState, start int) (end int) {
 		})
 		return end
 	}
-	end = start + 2
+	// Literal backslash. The following character is not consumed here:
+	// it may be the first byte of a multi-byte code point or begin another construct.
+	end = start + 1
 	state.addToRoot(&Inline{
 		kind: TextKind,
 		span: Span{
